@@ -1481,3 +1481,180 @@ extra_c11 = _chain(extra_c11, tiny_values_c11)
 extra_c13 = _chain(extra_c13, fsign_clamp_c13)
 extra_c16 = _chain(extra_c16, huge_shape_c16)
 extra_c17 = _chain(extra_c17, fine_units_c17)
+
+
+# ------------------------------------------------------------------ round 6: a coefficient FaceVariable edited in place between two calls
+def face_reuse(ctx, pf, prop):
+    """every builder that takes a FaceVariable, called again with the SAME object after its component arrays were changed in place
+    (`u.xvalue[:] = new`, the usual idiom, which no setter sees) or by assignment: the second result must be the one a fresh
+    FaceVariable with the current values gives (a cache keyed on the object, invalidated only by assignment, would return the old one)"""
+    n = 0
+    rng = random.Random(f"{prop}facereuse-{ctx.seed}")
+    FL = pf.fluxLimiter("SUPERBEE")
+    for cname in gen.CLASSES:
+        fs = gen.mesh_case(rng, cname, nmax=3, nmin=2)
+        mesh = gen.build_mesh(pf, cname, fs)
+        d = gen.DIM[cname]
+        L = {"cls": cname, "faces": [list(map(float, f)) for f in fs]}
+        shapes = face_shapes(mesh)
+        phi = pf.CellVariable(mesh, ival(rng, tuple(int(k) for k in mesh.dims), 0, 4) + 0.5)
+        builders = [("convectionUpwindTerm", lambda u: mat(pf.convectionUpwindTerm(u))),
+                    ("convectionTVDupwindRHSTerm", lambda u: np.asarray(pf.convectionTVDupwindRHSTerm(u, phi, FL))),
+                    ("convectionTerm", lambda u: mat(pf.convectionTerm(u))),
+                    ("diffusionTerm", lambda u: mat(pf.diffusionTerm(u))),
+                    ("divergenceTerm", lambda u: np.asarray(pf.divergenceTerm(u))),
+                    ("upwindMean", lambda u: np.concatenate([np.ravel(c) for c in (pf.upwindMean(phi, u)._xvalue, pf.upwindMean(phi, u)._yvalue, pf.upwindMean(phi, u)._zvalue)]))]
+        comps = ["_xvalue", "_yvalue", "_zvalue"][:d]
+        def edit_inplace(u, new):
+            for cn, a in zip(comps, new):
+                getattr(u, cn)[...] = a
+        def edit_accessor(u, new):
+            # through the public accessors of the class (the getter hands out the stored array)
+            for k, a in enumerate(new):
+                for lab in (["xvalue", "rvalue"], ["yvalue", "zvalue", "thetavalue"], ["zvalue", "phivalue"])[k]:
+                    try:
+                        arr = getattr(u, lab)
+                    except AttributeError:
+                        continue
+                    if np.shape(arr) == np.shape(a):
+                        arr[:] = a
+                        break
+        def edit_assign(u, new):
+            for cn, a in zip(comps, new):
+                setattr(u, cn, np.array(a))
+        for bname, build in builders:
+            for ename, edit in (("u.<label>value[:] = new", edit_accessor), ("in-place write into the component arrays", edit_inplace), ("assignment of new component arrays", edit_assign)):
+                try:
+                    with np.errstate(all="ignore"):
+                        old = [ival(rng, s, -2, 2) + 0.25 for s in shapes]
+                        u = mkface(pf, mesh, [a.copy() for a in old])
+                        b1 = build(u)
+                        new = [-(a[::-1].copy()) * 1.5 + ival(rng, a.shape, 0, 1) for a in old]
+                        edit(u, new)
+                        b2 = build(u)
+                        bf = build(mkface(pf, mesh, [a.copy() for a in new]))
+                    n += 1
+                    if np.shape(b2) != np.shape(bf) or relsc(b2, bf) > 1e-13:
+                        ctx.violation(f"{prop}:{cname}:{bname}:face-reuse",
+                                      f"{cname}: {bname} called again with the same FaceVariable after `{ename}` does not use its current values "
+                                      f"(rel {relsc(b2, bf) if np.shape(b2) == np.shape(bf) else float('nan'):.3g}; first call rel {relsc(b1, bf) if np.shape(b1) == np.shape(bf) else float('nan'):.3g} from the new values)",
+                                      dict(L, builder=bname, edit=ename, old=[a.tolist() for a in old], new=[a.tolist() for a in new]))
+                        break
+                except Exception as ex:
+                    ctx.violation(f"{prop}:{cname}:{bname}:face-reuse-raise", f"{cname}: {bname} on an edited FaceVariable raised {type(ex).__name__}: {ex}", dict(L, builder=bname, edit=ename))
+                    break
+    return n
+
+
+extra_c06 = _chain(extra_c06, lambda ctx, pf: face_reuse(ctx, pf, "c06"))
+extra_c05 = _chain(extra_c05, lambda ctx, pf: face_reuse(ctx, pf, "c05"))
+
+
+# ------------------------------------------------------------------ round 6: operands whose boundary conditions are in a particular state
+def bc_states_c14(ctx, pf):
+    """operators / copy / funceval on variables whose boundary-condition object is in each of the states a solution variable goes through:
+    default or edited coefficients x periodic flags on some axis or none x dirty flags raised (just configured) or clean (after apply_BCs
+    or a solve).  The result must carry boundary conditions EQUAL to the operand's (coefficients and periodic flags of every side), with
+    boundary values consistent with them, and stay independent of the operand."""
+    import operator as op
+    SIDES = ["left", "right", "bottom", "top", "back", "front"]
+    n = 0
+    rng = random.Random(f"c14bcstate-{ctx.seed}")
+    results = [("var * 2.0", lambda v: v * 2.0), ("2 * var", lambda v: 2 * v), ("-var", lambda v: -v), ("abs(var)", lambda v: abs(v)),
+               ("var ** 2", lambda v: v ** 2), ("var + var", lambda v: v + v), ("var.copy()", lambda v: v.copy()),
+               ("funceval(sin, var)", lambda v: pf.funceval(np.sin, v)), ("celleval(sin, var)", lambda v: pf.celleval(np.sin, v) if hasattr(pf, "celleval") else pf.funceval(np.sin, v))]
+    for cname in gen.CLASSES:
+        d = gen.DIM[cname]
+        fs = gen.mesh_case(rng, cname, nmax=3, nmin=2, uniform=True)
+        mesh = gen.build_mesh(pf, cname, fs)
+        dims = tuple(int(k) for k in mesh.dims)
+        per_axes = [a for a in range(d) if gen.AXKIND[cname][a] != "rad"]
+        for periodic_axis in [None] + per_axes:
+            for coeffs in ("default", "dirichlet-elsewhere"):
+                for state in ("dirty", "clean"):
+                    L = {"cls": cname, "faces": [list(map(float, f)) for f in fs], "periodic_axis": periodic_axis, "coefficients": coeffs, "flags": state}
+                    try:
+                        with np.errstate(all="ignore"):
+                            bc = pf.BoundaryConditions(mesh)
+                            if periodic_axis is not None:
+                                getattr(bc, SIDES[2 * periodic_axis]).periodic = True
+                                getattr(bc, SIDES[2 * periodic_axis + 1]).periodic = True
+                            if coeffs != "default":
+                                for a in range(d):
+                                    if a != periodic_axis and gen.AXKIND[cname][a] != "rad":
+                                        getattr(bc, SIDES[2 * a + 1]).fixedValue(1.5)
+                            v = pf.CellVariable(mesh, ival(rng, dims, 1, 5) + 0.5, bc)
+                            if state == "clean":
+                                v.apply_BCs()
+                            snap = np.array(v._value, dtype=float)
+                            for rname, make in results:
+                                r = make(v)
+                                n += 1
+                                # equal boundary conditions
+                                for s in SIDES[:2 * d]:
+                                    fo, fr = getattr(v.BCs, s), getattr(r.BCs, s)
+                                    if bool(fo.periodic) != bool(fr.periodic) or not (np.array_equal(np.asarray(fo.a), np.asarray(fr.a)) and np.array_equal(np.asarray(fo.b), np.asarray(fr.b)) and np.array_equal(np.asarray(fo.c), np.asarray(fr.c))):
+                                        ctx.violation(f"c14:{cname}:bc-state", f"{cname}: the result of {rname} on a variable with {coeffs} coefficients, periodic axis {periodic_axis}, {state} flags does not carry the operand's boundary conditions on side '{s}' (periodic {bool(fo.periodic)} -> {bool(fr.periodic)})", dict(L, result=rname, side=s))
+                                        raise StopIteration
+                                # boundary values consistent with them: recomputing them changes nothing
+                                stored = np.array(r._value, dtype=float)
+                                r.apply_BCs()
+                                if relsc(stored, np.array(r._value, dtype=float)) > 1e-13:
+                                    ctx.violation(f"c14:{cname}:bc-state-ghosts", f"{cname}: the boundary values of the result of {rname} ({coeffs} coefficients, periodic axis {periodic_axis}, {state} flags) are not the ones its boundary conditions give", dict(L, result=rname))
+                                    raise StopIteration
+                                if not np.array_equal(snap, np.array(v._value, dtype=float)):
+                                    ctx.violation(f"c14:{cname}:bc-state-operand", f"{cname}: {rname} changed its operand", dict(L, result=rname)); raise StopIteration
+                    except StopIteration:
+                        pass
+                    except Exception as ex:
+                        ctx.violation(f"c14:{cname}:bc-state-raise", f"{cname}: operators on a variable with {coeffs} coefficients / periodic axis {periodic_axis} / {state} flags raised {type(ex).__name__}: {ex}", L)
+    return n
+
+
+extra_c14 = _chain(extra_c14, bc_states_c14)
+
+
+# ------------------------------------------------------------------ round 6: ONE term list object used for several solves
+def list_reuse(ctx, pf, prop):
+    """terms can be reused in a time loop -- and so can the LIST that holds them: solvePDE called several times with the same list object
+    (after changing the boundary conditions, and for a second variable) must solve what a fresh list gives, and must leave the list alone"""
+    import copy as _copy
+    n = 0
+    rng = random.Random(f"{prop}listreuse-{ctx.seed}")
+    for cname in gen.CLASSES:
+        d = gen.DIM[cname]
+        fs = gen.mesh_case(rng, cname, nmax=3, nmin=2)
+        mesh = gen.build_mesh(pf, cname, fs)
+        dims = tuple(int(k) for k in mesh.dims)
+        L = {"cls": cname, "faces": [list(map(float, f)) for f in fs]}
+        try:
+            with np.errstate(all="ignore"):
+                D = pf.FaceVariable(mesh, 1.0)
+                src = pf.CellVariable(mesh, ival(rng, dims, 1, 3) + 0.5)
+                def mk():
+                    return [-pf.diffusionTerm(D), pf.linearSourceTerm(1.0 + 0 * src), pf.constantSourceTerm(src)]
+                terms = mk()
+                items = list(terms)
+                last = "right" if d == 1 else ("top" if d == 2 else "front")       # a non-radial side of every class
+                phi = pf.CellVariable(mesh, 0.0); getattr(phi.BCs, last).fixedValue(1.0)
+                psi = pf.CellVariable(mesh, 0.0); getattr(psi.BCs, last).fixedValue(-2.0)
+                steps = [("first call", phi, None), ("second call after changing the boundary value", phi, 5.0), ("call for a second variable with other boundary conditions", psi, None),
+                         ("fourth call, first variable again", phi, None)]
+                for desc, var, newval in steps:
+                    if newval is not None:
+                        getattr(var.BCs, last).fixedValue(newval)
+                    ref = pf.CellVariable(mesh, np.array(var.value), _copy.deepcopy(var.BCs))
+                    pf.solvePDE(var, terms)
+                    pf.solvePDE(ref, mk())
+                    n += 1
+                    if len(terms) != len(items) or any(a is not b for a, b in zip(terms, items)):
+                        ctx.violation(f"{prop}:{cname}:list-reuse-mutated", f"{cname}: solvePDE changed the term list it was given ({len(items)} -> {len(terms)} elements) [{desc}]", dict(L, step=desc)); break
+                    if relsc(np.array(var._value, dtype=float), np.array(ref._value, dtype=float)) > 1e-10:
+                        ctx.violation(f"{prop}:{cname}:list-reuse", f"{cname}: solvePDE with a term list object that was used before ({desc}) does not give what a fresh list gives (rel {relsc(np.array(var._value, dtype=float), np.array(ref._value, dtype=float)):.3g})", dict(L, step=desc)); break
+        except Exception as ex:
+            ctx.violation(f"{prop}:{cname}:list-reuse-raise", f"{cname}: repeated solves with one term list raised {type(ex).__name__}: {ex}", L)
+    return n
+
+
+extra_c04 = _chain(extra_c04, lambda ctx, pf: list_reuse(ctx, pf, "c04"))
+extra_c15 = _chain(extra_c15, lambda ctx, pf: list_reuse(ctx, pf, "c15"))
